@@ -148,8 +148,19 @@ struct World {
     expires: Vec<u64>,
     editor: Vec<bool>,
     snap: Snap,
-    /// snapshots handed to (token, key): version -> (content, physical file at issue time, tainted)
-    issued: HashMap<(usize, String), BTreeMap<u64, (String, Vec<String>, bool)>>,
+    /// snapshots handed to (token, key): version -> (content, physical file at issue time, tainted,
+    /// external: the harness itself rewrote the file afterwards)
+    issued: HashMap<(usize, String), BTreeMap<u64, (String, Vec<String>, bool, bool)>>,
+    /// operation counter and, per issued snapshot, the counter value at issue time
+    seq: u64,
+    issue_seq: HashMap<(usize, String, u64), u64>,
+    /// true history of every physical file: (seq, content) of the initial content and of every
+    /// change made through the API (the harness's own stale-read emulation is not history)
+    hist: HashMap<Vec<String>, Vec<(u64, String)>>,
+    /// successful API writes per physical file: (seq, document key they went through)
+    writes: HashMap<Vec<String>, Vec<(u64, String)>>,
+    /// did the last API operation write its file (apply_source succeeded)?
+    last_write_ok: bool,
     oracle_failures: u64,
 }
 
@@ -296,7 +307,7 @@ impl World {
                 continue;
             }
             for snaps in self.issued.values_mut() {
-                for (_, (_, phys, tainted)) in snaps.iter_mut() {
+                for (_, (_, phys, tainted, _)) in snaps.iter_mut() {
                     if phys.len() >= p.len() && phys[..p.len()] == p[..] {
                         *tainted = true;
                     }
@@ -359,7 +370,9 @@ enum Op {
     Search { tok: usize, query: String, limit: usize },
     Format { tok: usize, path: String, content: Option<String> },
     Health { tok: usize },
-    XWrite { phys: Vec<String>, content: String },
+    /// the harness writes the file itself; with `only_if` = the restore step of a stale-read
+    /// emulation: performed only while the file still holds that (stale) content
+    XWrite { phys: Vec<String>, content: String, only_if: Option<String> },
     Snap,
 }
 
@@ -399,13 +412,19 @@ fn op_line(op: &Op) -> String {
             format!("format {tok} {} {}", hex(path.as_bytes()), opt_content(content))
         }
         Op::Health { tok } => format!("health {tok}"),
-        Op::XWrite { phys, content } => format!("xwrite {} {}", render_path(phys), enc_content(content)),
+        Op::XWrite { phys, content, .. } => format!("xwrite {} {}", render_path(phys), enc_content(content)),
         Op::Snap => "snap".into(),
     }
 }
 
 /// Runs one operation on the implementation; writes the op line, the `impl` line and oracle lines.
 fn exec(w: &mut World, op: &Op, n: u64, out: &mut Out) {
+    if let Op::XWrite { phys, only_if: Some(stale), .. } = op {
+        // restore step: if the emulated operation wrote the file there is nothing to put back
+        if w.last_write_ok || !matches!(w.snap.get(phys), Some(Node::File(c)) if c == stale) {
+            return;
+        }
+    }
     let line = op_line(op);
     out.line(&line);
     match op {
@@ -413,13 +432,28 @@ fn exec(w: &mut World, op: &Op, n: u64, out: &mut Out) {
             w.clock.store(*t, Ordering::SeqCst);
             return;
         }
-        Op::XWrite { phys, content } => {
+        Op::XWrite { phys, content, .. } => {
             let mut p = w.base.clone();
             for c in phys {
                 p.push(c);
             }
             std::fs::write(&p, content).expect("xwrite");
             w.snap = snapshot(&w.base);
+            // the no-lost-update clause speaks about writes through the API only: snapshots of a
+            // file the harness rewrote itself (external change / emulated stale read) are not
+            // judged by the lost-update oracle (the model comparison still covers them)
+            // A stale read is emulated faithfully when the content is one the file really had
+            // (taken from its history): then the emulated schedule is a real interleaving.
+            let faithful = w.hist.get(phys).is_some_and(|h| h.iter().any(|(_, c)| c == content));
+            if !faithful {
+                for snaps in w.issued.values_mut() {
+                    for (_, (_, f, _, external)) in snaps.iter_mut() {
+                        if f == phys {
+                            *external = true;
+                        }
+                    }
+                }
+            }
             return;
         }
         Op::Snap => {
@@ -448,7 +482,8 @@ fn exec(w: &mut World, op: &Op, n: u64, out: &mut Out) {
     }
     // values needed by the protocol oracle after the call
     let mut issued_now: Option<(usize, String, u64, String)> = None;
-    let mut lost_update: Option<(String, bool)> = None;
+    // (detail, known-finding signature if the failure is exactly a listed open finding)
+    let mut lost_update: Option<(String, Option<&'static str>)> = None;
     let mut hidden_listed = false;
     let answer: Result<String, ()> = catch_unwind(AssertUnwindSafe(|| match op {
         Op::Session(editor) => {
@@ -482,7 +517,7 @@ fn exec(w: &mut World, op: &Op, n: u64, out: &mut Out) {
             match w.state.apply_source(&w.token(*tok), path, *expected, content.clone(), *we) {
                 Ok(r) => {
                     if r.version != expected.wrapping_add(1) {
-                        lost_update = Some((format!("version chain broken: expected {expected} -> {}", r.version), false));
+                        lost_update = Some((format!("version chain broken: expected {expected} -> {}", r.version), None));
                     }
                     if *honest {
                         // base content the client saw with `expected`
@@ -498,14 +533,29 @@ fn exec(w: &mut World, op: &Op, n: u64, out: &mut Out) {
                                 _ => None,
                             }),
                         };
-                        if let (Some((base, _, tainted)), Some(disk)) = (base, disk_before) {
-                            if base != disk {
+                        if let (Some((base, phys, tainted, external)), Some(disk)) = (base, disk_before) {
+                            if base != disk && !external {
+                                // exactly the listed open findings are classified: the snapshot
+                                // predates a removal of the file (version reuse), or a successful
+                                // write since the snapshot went through ANOTHER document key that
+                                // names the same file (alias through an in-root link)
+                                let since = w.issue_seq.get(&(*tok, r.path.clone(), *expected)).copied().unwrap_or(u64::MAX);
+                                let alias = w.writes.get(&phys).is_some_and(|ws| {
+                                    ws.iter().any(|(s, k)| *s > since && k != &r.path)
+                                });
+                                let class = if tainted {
+                                    Some("C19-version-reuse")
+                                } else if alias {
+                                    Some("C19-alias-keys")
+                                } else {
+                                    None
+                                };
                                 lost_update = Some((
                                     format!(
                                         "write with expected={expected} based on {:?} overwrote {:?}",
                                         base, disk
                                     ),
-                                    tainted,
+                                    class,
                                 ));
                             }
                         }
@@ -618,6 +668,7 @@ fn exec(w: &mut World, op: &Op, n: u64, out: &mut Out) {
     .map_err(|_| ());
     let after = snapshot(&w.base);
     let (d, changed) = diff(&before, &after);
+    w.last_write_ok = matches!(op, Op::Apply { .. }) && matches!(&answer, Ok(a) if a.starts_with("ok "));
     match &answer {
         Ok(a) => out.line(format!("impl {a} | {d}")),
         Err(()) => out.line(format!("impl panic | {d}")),
@@ -634,18 +685,37 @@ fn exec(w: &mut World, op: &Op, n: u64, out: &mut Out) {
     if hidden_listed {
         w.oracle_fail(out, n, "listed-entry-not-a-visible-project-file", &line, "");
     }
-    if let Some((detail, tainted)) = lost_update {
-        if tainted {
-            out.count("known_version_reuse_seen");
-            out.line(format!("# KNOWN C19-version-reuse case {n}: {}", json_escape(&detail)));
-        } else {
-            w.oracle_fail(out, n, "lost-update", &line, &detail);
+    if let Some((detail, class)) = lost_update {
+        match class {
+            Some(sig) => {
+                out.count(&format!("known_{}_seen", sig.trim_start_matches("C19-").replace('-', "_")));
+                out.line(format!("# KNOWN {sig} case {n}: {}", json_escape(&detail)));
+            }
+            None => w.oracle_fail(out, n, "lost-update", &line, &detail),
         }
     }
     w.taint(&changed);
+    w.seq += 1;
+    for (p, removed) in &changed {
+        if *removed {
+            w.hist.remove(p);
+        } else if let Some(Node::File(c)) = w.snap.get(p) {
+            let seq = w.seq;
+            w.hist.entry(p.clone()).or_default().push((seq, c.clone()));
+        }
+    }
+    if let Some((tok, key, version, _)) = &issued_now {
+        w.issue_seq.insert((*tok, key.clone(), *version), w.seq);
+        if matches!(op, Op::Apply { .. } | Op::Create { .. }) {
+            if let Some(phys) = w.physical_of(key) {
+                let seq = w.seq;
+                w.writes.entry(phys).or_default().push((seq, key.clone()));
+            }
+        }
+    }
     if let Some((tok, key, version, content)) = issued_now {
         let phys = w.physical_of(&key).unwrap_or_default();
-        w.issued.entry((tok, key)).or_default().insert(version, (content, phys, false));
+        w.issued.entry((tok, key)).or_default().insert(version, (content, phys, false, false));
     }
     if let Op::Apply { content, .. } = op {
         // disk = content of the last successful write
@@ -736,7 +806,9 @@ fn build_tree(base: &Path, rng: &mut Rng, full: bool) -> Built {
         write_file(&p, *rng.pick(&CONTENTS));
     }
     if full {
+        // the corpus scripts rely on these two
         write_file(&mk(&root, "lib/util.st"), CONTENTS[1]);
+        write_file(&root.join("main.st"), CONTENTS[0]);
     }
     // inside, hidden
     if full || rng.chance(2, 3) {
@@ -889,16 +961,32 @@ fn gen_we(rng: &mut Rng) -> bool {
 }
 
 /// expected version for an apply: honest (a version this token was given for this key) or not
-fn gen_expected(rng: &mut Rng, w: &World, tok: usize, path: &str) -> (u64, bool) {
+fn gen_expected(rng: &mut Rng, w: &World, tok: usize, path: &str) -> (u64, bool, u64) {
     let key = path.trim().trim_start_matches("./").to_string();
-    if let Some(m) = w.issued.get(&(tok, key)) {
+    if let Some(m) = w.issued.get(&(tok, key.clone())) {
         if !m.is_empty() && rng.chance(4, 5) {
             let versions: Vec<u64> = m.keys().copied().collect();
             let v = if rng.chance(3, 4) { *versions.last().unwrap() } else { *rng.pick(&versions) };
-            return (v, true);
+            let at = w.issue_seq.get(&(tok, key, v)).copied().unwrap_or(u64::MAX);
+            return (v, true, at);
         }
     }
-    (*rng.pick(&[0u64, 1, 1, 2, 2, 3, 4, 5, u64::MAX]), false)
+    (*rng.pick(&[0u64, 1, 1, 2, 2, 3, 4, 5, u64::MAX]), false, 0)
+}
+
+/// Contents a stale unlocked read of `phys` may have returned in a real interleaving: what the
+/// file held at some moment not earlier than `since` (the request was sent after the snapshot it
+/// is based on was received), other than its present content.
+fn stale_candidates(w: &World, phys: &[String], since: u64) -> Vec<String> {
+    let Some(h) = w.hist.get(phys) else { return Vec::new() };
+    let mut out = Vec::new();
+    for i in 0..h.len().saturating_sub(1) {
+        // h[i] was on disk until h[i+1] replaced it
+        if h[i + 1].0 > since && h[i].1 != h[h.len() - 1].1 {
+            out.push(h[i].1.clone());
+        }
+    }
+    out
 }
 
 fn gen_op(rng: &mut Rng, w: &World, protocol: bool, focus: &[String]) -> Vec<Op> {
@@ -913,22 +1001,27 @@ fn gen_op(rng: &mut Rng, w: &World, protocol: bool, focus: &[String]) -> Vec<Op>
         return match roll {
             0..=29 => vec![Op::Open { tok, path }],
             30..=64 => {
-                let (expected, honest) = gen_expected(rng, w, tok, &path);
+                let (expected, honest, since) = gen_expected(rng, w, tok, &path);
                 let content = gen_content(rng);
                 let we = gen_we(rng);
-                // emulate a stale unlocked read: the disk holds older content while the locked
-                // section runs, and is put back if the write is refused
-                if rng.chance(1, 4) {
+                // emulate a stale unlocked read: while the locked section runs the disk holds what
+                // the earlier read saw, and the true content is put back if the write is refused
+                if rng.chance(1, 3) {
                     if let Some(phys) = w.physical_of(&path) {
                         if let Some(Node::File(cur)) = w.snap.get(&phys) {
-                            let stale = rng.pick(&CONTENTS).to_string();
-                            if stale != *cur {
-                                return vec![
-                                    Op::XWrite { phys: phys.clone(), content: stale },
-                                    Op::Apply { tok, path, expected, content, we, honest, true_disk: Some(cur.clone()) },
-                                    Op::XWrite { phys, content: cur.clone() },
-                                ];
+                            let mut cands = stale_candidates(w, &phys, since);
+                            let faithful = !cands.is_empty();
+                            if !faithful {
+                                // never on disk: exercises the locked section against the model
+                                // only (an external change, not judged by the lost-update oracle)
+                                cands = CONTENTS.iter().map(|c| c.to_string()).filter(|c| c != cur).collect();
                             }
+                            let stale = rng.pick(&cands).clone();
+                            return vec![
+                                Op::XWrite { phys: phys.clone(), content: stale.clone(), only_if: None },
+                                Op::Apply { tok, path, expected, content, we, honest: honest && faithful, true_disk: Some(cur.clone()) },
+                                Op::XWrite { phys, content: cur.clone(), only_if: Some(stale) },
+                            ];
                         }
                     }
                 }
@@ -938,10 +1031,15 @@ fn gen_op(rng: &mut Rng, w: &World, protocol: bool, focus: &[String]) -> Vec<Op>
                 // stale read inside open_source
                 if let Some(phys) = w.physical_of(&path) {
                     if let Some(Node::File(cur)) = w.snap.get(&phys) {
+                        let mut cands = stale_candidates(w, &phys, 0);
+                        if cands.is_empty() {
+                            cands = CONTENTS.iter().map(|c| c.to_string()).filter(|c| c != cur).collect();
+                        }
+                        let stale = rng.pick(&cands).clone();
                         return vec![
-                            Op::XWrite { phys: phys.clone(), content: rng.pick(&CONTENTS).to_string() },
+                            Op::XWrite { phys: phys.clone(), content: stale.clone(), only_if: None },
                             Op::Open { tok, path },
-                            Op::XWrite { phys, content: cur.clone() },
+                            Op::XWrite { phys, content: cur.clone(), only_if: Some(stale) },
                         ];
                     }
                 }
@@ -962,7 +1060,7 @@ fn gen_op(rng: &mut Rng, w: &World, protocol: bool, focus: &[String]) -> Vec<Op>
     match roll {
         0..=13 => vec![Op::Open { tok, path }],
         14..=27 => {
-            let (expected, honest) = gen_expected(rng, w, tok, &path);
+            let (expected, honest, _) = gen_expected(rng, w, tok, &path);
             vec![Op::Apply { tok, path, expected, content: gen_content(rng), we: gen_we(rng), honest, true_disk: None }]
         }
         28..=43 => {
@@ -1104,8 +1202,19 @@ fn new_world(built: Built) -> World {
         tokens: Vec::new(),
         expires: Vec::new(),
         editor: Vec::new(),
+        hist: snap
+            .iter()
+            .filter_map(|(k, n)| match n {
+                Node::File(c) => Some((k.clone(), vec![(0u64, c.clone())])),
+                _ => None,
+            })
+            .collect(),
         snap,
         issued: HashMap::new(),
+        seq: 0,
+        issue_seq: HashMap::new(),
+        writes: HashMap::new(),
+        last_write_ok: false,
         oracle_failures: 0,
     }
 }
@@ -1208,11 +1317,23 @@ fn corpus(k: u64) -> Option<Vec<Op>> {
             Op::Search { tok: 1, query: "zz".into(), limit: 50 },
             o(1, "dout/secret.st"), o(1, "dout\\secret.st"),
         ]),
+        // OPEN finding C19-alias-keys: one file, two document keys (through the in-root link
+        // droot -> root); B's write through the other key does not bump A's key, and A's locked
+        // section runs on a read taken before B's write (emulated: the disk shows the old content)
+        7 => Some(vec![
+            Op::Session(true), Op::Session(true),
+            o(0, "main.st"), o(1, "droot/main.st"), ap(1, "droot/main.st", 1, "B1 precious\n"),
+            Op::XWrite { phys: vec!["ws".into(), "proj".into(), "main.st".into()], content: CONTENTS[0].into(), only_if: None },
+            Op::Apply { tok: 0, path: "main.st".into(), expected: 1, content: "A stale\n".into(), we: true, honest: true,
+                        true_disk: Some("B1 precious\n".into()) },
+            Op::XWrite { phys: vec!["ws".into(), "proj".into(), "main.st".into()], content: "B1 precious\n".into(), only_if: Some(CONTENTS[0].into()) },
+            o(1, "droot/main.st"),
+        ]),
         _ => None,
     }
 }
 
-const CORPUS_LEN: u64 = 7;
+const CORPUS_LEN: u64 = 8;
 
 fn run_case(args: &Args, n: u64, out: &mut Out) -> u64 {
     let mut rng = Rng::for_case(args.seed, n);
